@@ -404,6 +404,19 @@ def prefix_checks(ctx):
                                   codes=codes(P, text))
         except Exception as e:
             rec.violation("C13:single-prefixed-schema:raises:" + type(e).__name__, version=version, error=repr(e)[:200])
+    # the same library named twice - in one comma-separated entry, with and without a prefix, next to another library
+    for spec in ("testlib_2.0.0,testlib_2.0.0", "tl:testlib_2.0.0,testlib_2.0.0", ["8.2.0", "sc:score_1.1.0,score_1.1.0"],
+                 "score_1.1.0,testlib_2.0.0,score_1.1.0", ["score_1.1.0", "score_1.1.0"], '["8.2.0", "sc:score_1.1.0,score_1.1.0"]'):
+        rec.n("evaluations")
+        rec.n("distinct_nontrivial")
+        try:
+            load_schema_version(spec)
+            rec.violation("C13:refusal:same-library-twice-accepted", versions=repr(spec))
+        except HedFileError:
+            rec.outcome("same-library-twice-refused")
+        except Exception as e:
+            rec.violation("C13:refusal:same-library-twice:wrong-exception:" + type(e).__name__, versions=repr(spec),
+                          error=repr(e)[:200])
     # several libraries under one prefix, loaded from a folder that holds only the first one's file (the others are found
     # after the folder is completed from the installation): the same schema, or the same refusal, as from a complete cache
     import shutil
